@@ -298,7 +298,25 @@ def _copy_root(fn, l):
     return l
 
 
-def manual_drop_conforms(fn):
+DETACH = ("::take", "mem::replace", "mem::take", "mem::swap")
+
+
+def _detaches(crate, t, depth=0):
+    """A call that takes the rest of the chain out of its owner: take / mem::replace / mem::take / mem::swap, or a
+    local helper that does so (`self.take_cdr()`)."""
+    names = F.callee_names(t)
+    if name_has(names, DETACH):
+        return True
+    if crate is None or depth > 2:
+        return False
+    c = t["callee"]
+    g = crate.fn(c.get("resolved") or c.get("path") or "") if c.get("resolved_crate", c.get("crate")) == crate.name else None
+    if g is None or cfg.natural_loops(g):
+        return False
+    return any(_detaches(crate, t2, depth + 1) for _bi, t2 in g.calls())
+
+
+def manual_drop_conforms(fn, crate=None):
     """A manual Drop for a spine type must be iterative: it has a loop and detaches the
     rest of the chain (take / mem::replace / mem::take) inside it, and does not call itself."""
     loops = cfg.natural_loops(fn)
@@ -309,8 +327,7 @@ def manual_drop_conforms(fn):
     for bi in body:
         t = fn.blocks[bi]["term"]
         if t["k"] == "call":
-            names = F.callee_names(t)
-            if name_has(names, ("::take", "mem::replace", "mem::take", "mem::swap")):
+            if _detaches(crate, t):
                 detaches = True
     if not detaches:
         return False, "loop does not detach the rest of the chain (no take/mem::replace/mem::take/swap)"
@@ -320,8 +337,7 @@ def manual_drop_conforms(fn):
     D = set()
     for bi, b in enumerate(fn.blocks):
         t = b["term"]
-        if t["k"] == "call" and not fn.is_cleanup(bi) and \
-                name_has(F.callee_names(t), ("::take", "mem::replace", "mem::take", "mem::swap")):
+        if t["k"] == "call" and not fn.is_cleanup(bi) and _detaches(crate, t):
             D.add(bi)
     rets = [bi for bi, b in enumerate(fn.blocks) if b["term"]["k"] == "return" and not fn.is_cleanup(bi)]
     # blocks from which `return` can be reached without executing a detaching block
